@@ -440,7 +440,7 @@ def run(chk, P):
     r09_7(chk, P)
     chk.floor('R09.7', 4)
     r09_6(chk, P)
-    chk.floor('R09.6', 3)
+    chk.floor('R09.6', 2)
     r09_1(chk, P)
     chk.floor('R09.1', 40)
     r09_3(chk, P)
